@@ -4,14 +4,17 @@
 # first counter-example next to the seed, undo the change straight afterwards.
 set -u
 D=$(readlink -f "$1"); ID=$2; TIER=${3:-quick}
-cd /verif
+# VERIF_TRIAL_DIR: a checkout of /verif at a fixed commit (so /verif itself can be edited meanwhile)
+V=${VERIF_TRIAL_DIR:-/verif}
+cd "$V"
+COMMIT=$(git -C "$V" rev-parse --short HEAD)
 if [ -n "$(git -C /repo status --porcelain --untracked-files=no)" ]; then echo "/repo is not clean"; exit 2; fi
 restore() { git -C /repo checkout -- . ; }
 trap restore EXIT
 git -C /repo apply "$D/patch.diff" || exit 2
 mkdir -p out/seedpass
 s=$(date +%s)
-VERIF_EVIDENCE_DIR=/verif/out/seedpass/evidence ./check $ID --tier $TIER > out/seedpass/stdout.txt 2> out/seedpass/stderr.txt
+VERIF_EVIDENCE_DIR="$V/out/seedpass/evidence" ./check $ID --tier $TIER > out/seedpass/stdout.txt 2> out/seedpass/stderr.txt
 rc=$?
 e=$(date +%s)
 first=$(grep -m1 VIOLATION out/seedpass/stdout.txt)
@@ -19,13 +22,13 @@ why=$(grep -m1 -E '^   ' out/seedpass/stderr.txt | cut -c4-400)
 nviol=$(grep -c VIOLATION out/seedpass/stdout.txt)
 replay=$(echo "$first" | sed -n 's/.*replay=\(.*\)$/\1/p')
 if [ -n "$replay" ] && [ -f "$replay" ]; then cp "$replay" "$D/counterexample.$ID.json"; fi
-python3 - "$D" "$ID" "$TIER" "$rc" "$((e-s))" "$nviol" "$why" <<'PY'
+python3 - "$D" "$ID" "$TIER" "$rc" "$((e-s))" "$nviol" "$why" "$COMMIT" <<'PY'
 import json,sys,os
-d,ID,tier,rc,wall,nviol,why=sys.argv[1:8]
+d,ID,tier,rc,wall,nviol,why,commit=sys.argv[1:9]
 p=os.path.join(d,'trials.json')
 t=json.load(open(p)) if os.path.exists(p) else []
 t=[x for x in t if not (x['check']==ID and x['tier']==tier)]
-t.append({'check':ID,'tier':tier,'cmd':f'git -C /repo apply {d}/patch.diff && ./check {ID} --tier {tier}; git -C /repo checkout -- .','exit_code':int(rc),'wall_s':int(wall),'violation_lines':int(nviol),'first_violation':why})
+t.append({'check':ID,'tier':tier,'cmd':f'git -C /repo apply {d}/patch.diff && ./check {ID} --tier {tier}; git -C /repo checkout -- .','exit_code':int(rc),'wall_s':int(wall),'violation_lines':int(nviol),'first_violation':why,'verif_commit':commit})
 json.dump(t,open(p,'w'),indent=1)
 PY
 echo "$(basename $D) $ID $TIER rc=$rc ${nviol} viol $((e-s))s :: $why" | cut -c1-300
